@@ -12,6 +12,7 @@ EXPLANATION = (
     "FF (each located Error / warning stores the span of the offending construct: the name after @, the right-hand side, stored-vs-current definition, the command name, the two literals, the reference itself, the definition's left-hand side), "
     "UNITS (1-based line/column go to the displayed positions, 0-based accessors to the snippet API; the snippet line is selected with the 0-based line). "
     "NOT decided: nom_locate's own column arithmetic (bytes vs characters), what 'the first statement that cannot be parsed' is for every malformed input."
+    " DUPORDER: every DuplicateNonterminalDefinition is built as (entry found, definition in hand). UNITS end-is-a-column: every value column_end can take is built on a column, never on a bare length."
 )
 ASSUMPTIONS = ["nom_locate derives line/column from the offset inside the original allocation (documented)", "rustc's callee/generic resolution (MIR)"]
 
